@@ -313,6 +313,7 @@ impl Exp {
                 if needs_exact_value
                     && (!inner_bounds.lower.is_finite() || !inner_bounds.upper.is_finite())
                 {
+                    diagnose_bounded_operand(exp, linearizer_context)?;
                     return Err(LinearizationError::MissingFiniteBounds {
                         expression: Box::new(self.clone()),
                         requirement: requirement.description(),
@@ -480,6 +481,9 @@ fn linearize_extreme(
             }
         };
         if !has_finite_bounds {
+            for exp in &retained_exps {
+                diagnose_bounded_operand(exp, linearizer_context)?;
+            }
             return Err(LinearizationError::MissingFiniteBounds {
                 expression: Box::new(extreme_exp.clone()),
                 requirement: requirement.description(),
@@ -1399,6 +1403,23 @@ fn first_unresolved_division(exp: &Exp) -> Option<&Exp> {
             first_unresolved_division(lhs).or_else(|| first_unresolved_division(rhs))
         }
     }
+}
+
+/// An operand without a finite range although every variable in it has one is
+/// not short of bounds: it divides by zero, multiplies variables or holds an
+/// infinite constant. Lowering it reports what is wrong with it.
+fn diagnose_bounded_operand(
+    exp: &Exp,
+    linearizer_context: &mut Linearizer,
+) -> Result<(), LinearizationError> {
+    if !variables_without_finite_bounds(exp, &linearizer_context.bounds).is_empty() {
+        return Ok(());
+    }
+    let value = exp.linearize(linearizer_context, ValueRequirement::Exact)?;
+    if !value.is_finite() {
+        return Err(LinearizationError::NonFiniteConstant(Box::new(exp.clone())));
+    }
+    Ok(())
 }
 
 fn variables_without_finite_bounds(exp: &Exp, bounds: &BoundsAnalyzer) -> Vec<String> {
